@@ -23,6 +23,15 @@ func c13(c *q.Ctx) {
 	if ga := c.Fn(miner + "(*Miner).getAwardTx"); ga != nil {
 		c.ArgIs(ga, "GenerateAwardTx", 1, "big.(*Int).String(ledger.(*GenesisBlock).CalcAward(p0.ctx.Ledger.GenesisBlock,p1))", 1, "the producer pays itself exactly CalcAward(height)")
 	}
+	// the award transaction always carries exactly the one output every validator reads the award from
+	// (IsValidTx: TxOutputs[0]) - also when the award has decayed to zero
+	if gw := c.Fn(txp + "GenerateAwardTx"); gw != nil {
+		c.Before(gw, q.ToFieldStore("Transaction.TxOutputs"), q.ToSuccess(), "no award transaction leaves without its output")
+		c.StoreIs(gw, "Transaction.TxOutputs", "append(*,[local<TxOutput>])", 1, "one output")
+		c.StoreIs(gw, "TxOutput.Amount", "big.(*Int).Bytes(big.NewInt(0){SetString(p1,10)})", 1, "of the amount asked for")
+		c.StoreIs(gw, "TxOutput.ToAddr", "p0", 1, "to the address asked for")
+		c.StoreIs(gw, "Transaction.Coinbase", "true", 1, "marked as the coinbase")
+	}
 	if pk := c.Fn(miner + "(*Miner).packBlock"); pk != nil {
 		c.ArgIs(pk, "Miner.getAwardTx", 1, "p2", 1, "award computed for the height that is packed")
 		c.ArgIs(pk, "Ledger.FormatMinerBlock", 12, "p2", 1, "the block is formatted at that height")
@@ -92,5 +101,17 @@ func c13(c *q.Ctx) {
 		tx := "*QueryBlock(*,p1)#0.Transactions[]"
 		c.OnlyUnder(pm, q.ToCall("State.doTxInternal"), []q.Cond{{Canon: tx + ".Coinbase", Sense: true}, {Canon: tx + ".Autogen", Sense: true}}, "pool transactions were applied when they were admitted; only the award and the timer transaction are played")
 		c.Effect(pm, q.Eff{Spec: "Batch.Delete", Arg: 0, Glob: "append(\"N\"," + tx + ".Txid)", Req: []q.Cond{{Canon: tx + ".Coinbase", Sense: false}, {Canon: tx + ".Autogen", Sense: false}}, Why: "every packed pool transaction leaves the pool table in the block's batch", Rule: "K2"})
+		// ... and the in-memory pool loses exactly the packed transactions: what did not fit under the size limit stays
+		// pending (its effects are in the state and its record in the pool table; the next block is packed from memory)
+		c.Effect(pm, q.Eff{Spec: "Map.Delete", Arg: 0, Glob: tx + ".Txid", Why: "the packed transactions leave the in-memory pool", Rule: "K2"})
+	}
+	poolMapOwner(c)
+}
+
+// poolMapOwner: the in-memory pool is one map for the life of the Tx object - nobody swaps or empties it wholesale, so
+// a pending transaction leaves it only by a Delete of its own id (shared by C05/C06/C13).
+func poolMapOwner(c *q.Ctx) {
+	c.WhoWrites("Tx.UnconfirmTxInMem", map[string]string{"bcs/ledger/xledger/tx::NewTx": "constructor"}, "the pool map is created once; entries leave one by one")
+	{
 	}
 }
